@@ -1567,3 +1567,15 @@ package gojq
 // (stated conditionally: callers keep a defensive branch for a non-string result, which a stronger
 // postcondition would make unreachable - the vacuity guard rejects that)
 //@   ensures !(v is string) && (r is string) ==> r.(string) == jsonOf(v)
+
+// C02/C03: one step of getpath, .[k]: the value stored under a string key of an object (null when absent
+// or when the input is null), the element at the clamped index toInt(k) of an array (null outside). With
+// the one-step contracts of updateObject and updateArrayIndex above: setpath([k]; x) | getpath([k]) is x.
+//@ func funcIndex2(_0, v, x any) (r any)
+//@   property C02 C03
+//@   modifies *
+//@   ensures (x is string) && (v is map[string]any) ==> r == v.(map[string]any)[x.(string)]
+//@   ensures (x is string) && v == nil ==> r == nil
+//@   ensures isNum(x) && v == nil ==> r == nil
+//@   ensures isNum(x) && (v is []any) && 0 <= clampIdx(toIntP(x), -1, len(v.([]any))) && clampIdx(toIntP(x), -1, len(v.([]any))) < len(v.([]any)) ==> r == v.([]any)[clampIdx(toIntP(x), -1, len(v.([]any)))]
+//@   ensures isNum(x) && (v is []any) && !(0 <= clampIdx(toIntP(x), -1, len(v.([]any))) && clampIdx(toIntP(x), -1, len(v.([]any))) < len(v.([]any))) ==> r == nil
